@@ -190,7 +190,9 @@ def run(ctx):
         "by the shape()-level hygiene search over corpus fonts (partial, as DESIGN.md §5 C04 says)",
     ]
     ctx.regen()
-    ctx.prove(MODULE)
+    if not ctx.prove(MODULE):
+        import _pairflag as PFn
+        PFn.name_failed_theorems(ctx)
     shim = vlib.build_harness()
     gf, bf = F.constants(shim)
     b = dict(bf)
